@@ -262,19 +262,25 @@ def _run_batch(prop, tier, base_seed, engine, findings, workdir, t_start):
         os.path.join(REGRESS_DIR, name) for name in (
             os.listdir(REGRESS_DIR) if os.path.isdir(REGRESS_DIR) else [])
         if name.startswith(prop + '-') and name.endswith('.json'))
-    rproc = None
-    if regress_files:
-        rproc = _spawn({'prop': prop, 'mode': 'regress', 'tier': tier,
-                        'base_seed': base_seed, 'files': regress_files,
-                        'hard_timeout': 900}, 0, workdir, 'regress')
+    rprocs = []
+    by_hs = {}
+    for path in regress_files:
+        with open(path) as f:
+            by_hs.setdefault(json.load(f).get('pythonhashseed', 0),
+                             []).append(path)
+    for hs in sorted(by_hs):
+        rprocs.append(_spawn({'prop': prop, 'mode': 'regress', 'tier': tier,
+                              'base_seed': base_seed, 'files': by_hs[hs],
+                              'hard_timeout': 900}, hs, workdir,
+                             'regress%d' % hs))
     outs = []
     all_fps = set()
     harness_errors = []
     regress_results = []
-    if rproc is not None:
+    for rproc in rprocs:
         try:
             rout, _ = _collect(rproc[0], rproc[1], rproc[2], 960)
-            regress_results = rout['regress']
+            regress_results.extend(rout['regress'])
         except HarnessError as err:
             harness_errors.append(str(err))
     for w, proc, s, errf in procs:
